@@ -945,6 +945,22 @@ def r11_junit_text_xml_safe(chk: Check) -> None:
                     chk.violation("C16.R11", fn, construct,
                                   f"`{unparse(kw.value, 60)}` reaches junit_xml as it is: a failing response whose body contains U+FFFE / U+FFFF (valid UTF-8: `\\xef\\xbf\\xbe`) makes `to_xml_report_file(..., prettyprint=True)` raise `ExpatError: reference to invalid character number` - the handler exception ends the run and junit.xml stays empty",
                                   fn.loc(c))
+    # the `name` attribute of a test case comes from the API schema (operation label = method + path)
+    for fn in mod.functions.values():
+        if isinstance(fn.node, ast.Lambda):
+            continue
+        for c in body_calls(fn):
+            if last_attr(c) != "TestCase" or not c.args:
+                continue
+            n += 1
+            construct = f"{fn.qualname.partition(':')[2]}: TestCase(<name>) is XML-safe"
+            forms = canon(fn, c.args[0])
+            if any(isinstance(x, ast.Call) and last_attr(x) in sanitizers for f_ in forms for x in [ast.parse(f_, mode="eval").body]):
+                chk.ok("C16.R11", fn, construct, "", fn.loc(c))
+            else:
+                chk.violation("C16.R11", fn, construct,
+                              f"the test case name `{unparse(c.args[0], 40)}` (an operation label, i.e. a path from the API schema) is written as an XML attribute without the clean-up: a path such as `/a\\ufffeb` makes write_report raise ExpatError - internal error, exit 1 on a passing run, empty junit.xml",
+                              fn.loc(c))
     if n < 3:
         chk.undecided("C16.R11", "<discovery>", f"sites={n}", "fewer junit text sinks than confirmed by hand")
 
